@@ -283,9 +283,7 @@ Section SolverProofs.
       { intros Hin. apply existsb_eqb0 in Hin. congruence. }
       simpl. destruct (existsb (supports (g_m (v_int s))) keys) eqn:Es.
       + apply reset_hard_coh. simpl. rewrite C1. symmetry. apply Hm. exact H0.
-      + split; simpl; [rewrite C1; symmetry; apply Hm; exact H0|].
-        intros k Hk. rewrite (C2 k Hk). symmetry. apply Hl; [exact H0|].
-        eapply existsb_supports_false; eassumption.
+      + split; simpl; [rewrite C1; symmetry; apply Hm; exact H0|]. intros k Hk. reflexivity.
   Qed.
 
   Lemma set_options_coh s d s' : NoDup (map fst d) -> Coh s ->
